@@ -64,7 +64,7 @@ def k_units(prop, tier):
         b = ["one step; dimension symbolic in 1..dmax; every answer of the conditional a solver variable"]
         add("c05_u8_d4", 600, fn, b + ["S=u8, dmax 4"], [])
         add("c05_f64_d3", 900, fn, b + ["S=f64 (bitwise), dmax 3"], [])
-        add("c05_u8_d6", 1800, fn, b + ["S=u8, dmax 6"], [], thorough_only=True)
+        add("c05_u8_d6", 1800, fn, b + ["S=u8, dmax 6"], [])
         add("c05_i32_d4", 900, fn, b + ["S=i32, dmax 4"], [], thorough_only=True)
     if prop in ("C07", "C08"):
         fn = ["mini_mcmc::metropolis_hastings::MetropolisHastings::<f64,f64,D,Q>::new", "MetropolisHastings::seed",
@@ -163,18 +163,24 @@ def m_table():
     import m_hmc
     import m_run
     return {
+        "C08": [("c08_nuts_streams", m_nuts.c08_nuts_streams)],
         "C09": [("c09_runner", m_run.c09_runner), ("c09_hmc_run", m_run.c09_hmc_run), ("c09_nuts_run", m_run.c09_nuts_run)],
         "C10": [("c10_run_chain_progress", m_run.c10_run_chain_progress), ("c10_precision", m_run.c10_precision),
-                ("c10_reporter", m_run.c10_reporter)],
+                ("c10_reporter", m_run.c10_reporter), ("c10_reporter_nuts", m_run.c10_reporter_nuts),
+                ("c10_hmc_progress", m_run.c10_hmc_progress)],
         "C12": [("c12_ess", m_stats.c12_ess)],
         "C16": [("c16_new", m_stats.c16_new)],
+        "C18": [("c18_init_stream", m_run.c18_init_stream)],
         "C02": [("c02_hmc_step", m_hmc.c02_hmc_step), ("c02_reversible", m_hmc.c02_reversible),
                 ("c02_hmc_two_steps", m_hmc.c02_hmc_two_steps), ("c02_hmc_nan", m_hmc.c02_hmc_nan)],
-        "C07": [("c07_hmc_hidden_randomness", m_hmc.c07_hmc_hidden_randomness), ("c07_nuts_set_seed", m_nuts.c07_nuts_set_seed)],
+        "C07": [("c07_hmc_hidden_randomness", m_hmc.c07_hmc_hidden_randomness), ("c07_nuts_set_seed", m_nuts.c07_nuts_set_seed),
+                ("c07_parallel_closure", m_run.c07_parallel_closure), ("c07_nuts_hidden_randomness", m_nuts.c07_nuts_hidden_randomness)],
         "C04": [("c04_adaptation", m_nuts.c04_adaptation)],
         "C03": [("c03_build_tree", m_nuts.c03_build_tree), ("c03_step", m_nuts.c03_step)],
         "C14": [("c14_hmc", m_hmc.c14_hmc), ("c14_nuts", m_nuts.c14_nuts)],
-        "C15": [("c15_isotropic", m_dist.c15_isotropic), ("c15_gaussian2d", m_dist.c15_gaussian2d)],
-        "C11": [("c11_split_rhat", m_stats.c11_split_rhat), ("c11_comparator", m_stats.c11_comparator)],
+        "C15": [("c15_isotropic", m_dist.c15_isotropic), ("c15_gaussian2d", m_dist.c15_gaussian2d),
+                ("c15_tensor_targets", m_dist.c15_tensor_targets)],
+        "C11": [("c11_split_rhat", m_stats.c11_split_rhat), ("c11_comparator", m_stats.c11_comparator),
+                ("c11_summary", m_stats.c11_summary)],
         "C13": [("c13_trackers", m_stats.c13_trackers)],
     }
